@@ -87,6 +87,10 @@ def showBlocks (p : RootFile.Parsed) : String :=
   joinOr (p.blocks.map fun b =>
     s!"{b.locale}:{b.content}:{b.numRecords}:" ++ "+".intercalate (b.recs.map fun r => toString r.fdid)) ";"
 
+/-- canonical listing of lookup-table entries: blockIndex:locale:content:ckey per entry, in order -/
+def showEntries (es : List RootFile.Entry) : String :=
+  joinOr (es.map fun e => s!"{e.blockIndex}:{e.locale}:{e.content}:{hx e.ckey}") ";"
+
 def step (s : St) (toks : List String) : St × String :=
   match toks with
   | ["begin", "enc", cp, ep] =>
@@ -249,10 +253,18 @@ def step (s : St) (toks : List String) : St × String :=
     | _ => (s, "bad-op")
   else if s.mode == "root" then
     match toks with
-    | ["r", fd, ck, nh, loc, cf] =>
-      match fd.toNat?, parseHexNat ck, (if nh == "-" then some none else nh.toNat?.map some), loc.toNat?, cf.toNat? with
+    | [op, fd, ck, nh, loc, cf] =>
+      -- `r`: numeric name hash or `-`; `rp`: ASCII path (hex) hashed as `RootBuilder::add_file` does
+      let nh? : Option (Option Nat) :=
+        if op == "r" then (if nh == "-" then some none else nh.toNat?.map some)
+        else if op == "rp" then
+          match parseHexNat nh with
+          | some path => if path.any (· ≥ 128) then none else some (some (nameHash path))
+          | none => none
+        else none
+      match fd.toNat?, parseHexNat ck, nh?, loc.toNat?, cf.toNat? with
       | some fd, some ck, some nh, some loc, some cf =>
-        if ck.length ≠ 16 ∨ s.built then (s, "bad-op")
+        if ck.length ≠ 16 ∨ s.built ∨ fd ≥ 4294967296 ∨ loc ≥ 4294967296 ∨ cf ≥ 18446744073709551616 then (s, "bad-op")
         else ({ s with rrecs := (loc, cf, { fdid := fd, ckey := ck, nameHash := nh }) :: s.rrecs }, "ok")
       | _, _, _, _, _ => (s, "bad-op")
     | ["build"] =>
@@ -268,14 +280,47 @@ def step (s : St) (toks : List String) : St × String :=
       match s.root with
       | none => (s, if s.built then "err:nofile" else "bad-op")
       | some p => (s, showBlocks p)
-    | [op, a, loc, cf] =>
-      match s.root, a.toNat?, loc.toNat?, cf.toNat? with
-      | some p, some a, some loc, some cf =>
-        if op == "id" then (s, match p.resolveById a loc cf with | some ck => hx ck | none => "none")
-        else if op == "nh" then (s, match p.resolveByHash a loc cf with | some ck => hx ck | none => "none")
+    | ["stats"] =>
+      match s.root with
+      | none => (s, if s.built then "err:nofile" else "bad-op")
+      | some p => let st := p.lookupStats; (s, s!"fdids={st.1} names={st.2}")
+    | [op, a] =>
+      if op != "ids" && op != "paths" then (s, "bad-op") else
+      match s.root with
+      | none => (s, if s.built then "err:nofile" else "bad-op")
+      | some p =>
+        if op == "ids" then
+          match a.toNat? with
+          | some fd => if fd ≥ 18446744073709551616 then (s, "bad-op") else (s, showEntries (p.entriesById (fd % 4294967296)))
+          | none => (s, "bad-op")
+        else if op == "paths" then
+          match parseHexNat a with
+          | some path => if path.any (· ≥ 128) then (s, "bad-op") else (s, showEntries (p.entriesByHash (nameHash path)))
+          | none => (s, "bad-op")
         else (s, "bad-op")
-      | none, some _, some _, some _ => (s, if s.built then "err:nofile" else "bad-op")
-      | _, _, _, _ => (s, "bad-op")
+    | [op, a, loc, cf] =>
+      if op != "id" && op != "nh" && op != "path" then (s, "bad-op") else
+      match s.root with
+      | none => (s, if s.built then "err:nofile" else "bad-op")
+      | some p =>
+        let showCk (r : Option (List Nat)) : String := match r with | some ck => hx ck | none => "none"
+        match loc.toNat?, cf.toNat? with
+        | some loc, some cf =>
+          if loc ≥ 4294967296 ∨ cf ≥ 18446744073709551616 then (s, "bad-op")
+          else if op == "id" then
+            match a.toNat? with
+            | some fd => if fd ≥ 18446744073709551616 then (s, "bad-op") else (s, showCk (p.resolveById (fd % 4294967296) loc cf))
+            | none => (s, "bad-op")
+          else if op == "nh" then
+            match a.toNat? with
+            | some h => if h ≥ 18446744073709551616 then (s, "bad-op") else (s, showCk (p.resolveByHash h loc cf))
+            | none => (s, "bad-op")
+          else if op == "path" then
+            match parseHexNat a with
+            | some path => if path.any (· ≥ 128) then (s, "bad-op") else (s, showCk (p.resolveByHash (nameHash path) loc cf))
+            | none => (s, "bad-op")
+          else (s, "bad-op")
+        | _, _ => (s, "bad-op")
     | _ => (s, "bad-op")
   else if s.mode == "tvfs" then
     match toks with
